@@ -200,9 +200,19 @@ def first_slice(t):
     return Triangle(list(t.slices.values())[0].cells)
 
 
+_TMP_DIRS = []
+
+
 def tmp_path(suffix):
     d = tempfile.mkdtemp(prefix="verif-c03-")
+    _TMP_DIRS.append(d)
     return os.path.join(d, "out" + suffix)
+
+
+def cleanup_tmp():
+    import shutil
+    while _TMP_DIRS:
+        shutil.rmtree(_TMP_DIRS.pop(), ignore_errors=True)
 
 
 # --- Triangle methods -------------------------------------------------------------------------
@@ -225,7 +235,7 @@ def _(rng, t):
 
 
 @op("Triangle.filter", chain=True)
-def _(rng, t): return (lambda a: a.filter(lambda c: c.dev_lag() >= 0 and hash(c.period_start) % 5 != 0), [t], {})
+def _(rng, t): return (lambda a: a.filter(lambda c: c.dev_lag() >= 0 and c.period_start.toordinal() % 5 != 0), [t], {})
 
 
 @op("Triangle.derive_fields", chain=True)
@@ -845,6 +855,7 @@ def correspondence(ctx):
                         if entry["plot"] and readonly and position != 0:
                             continue
                         case, sc = run_scenario(ctx, name, shape, position, seed, readonly, stats)
+                        cleanup_tmp()
                         ctx.case(digest=json.dumps([name, shape, position, seed, readonly]), nontrivial=True,
                                  sample={"op": name, "shape": case["shape"], "position": position, "chain": case["chain"],
                                          "outcomes": sc.trace} if oi % 17 == 3 and si == 0 and position == 2 and not readonly else None)
